@@ -105,7 +105,12 @@ def main(argv=None):
         return 3
     results = run_pool(pid, a.tier, idxs, seed, a.jobs)
     return report(pid, a.tier, seed, mod, results, time.time() - t0, replay_mode=bool(a.replay),
-                  partial=bool(a.only or a.replay))
+                  partial=bool(a.only or a.replay or _overridden()))
+
+
+def _overridden():
+    from vf.paths import OVERRIDDEN
+    return OVERRIDDEN
 
 
 def run_pool(pid, tier, idxs, seed, jobs):
@@ -241,9 +246,10 @@ def line_coverage(funcs, results):
         if ":" not in q:
             continue
         modname, qual = q.split(":", 1)
-        path = "/repo/" + modname.replace(".", "/") + ".py"
+        from vf.paths import REPO
+        path = REPO + "/" + modname.replace(".", "/") + ".py"
         if not os.path.exists(path):
-            path = "/repo/" + modname.replace(".", "/") + "/__init__.py"
+            path = REPO + "/" + modname.replace(".", "/") + "/__init__.py"
             if not os.path.exists(path):
                 continue
         if path not in cache:
